@@ -23,6 +23,11 @@ import DadiVerif.Model.DataDict
    direct1 n cols                           -> ok S pi watterson thetaL tajvar | S pi watterson thetaL tajvar   (direct | via spectrum)
    direct_tajima sqrtC n cols               -> ok Ddirect Dspec
    direct_fst ns mcols                      -> ok direct spec
+   bsv filt mc pol nboot size want popIds draws choice sites
+                                            -> ok data mask left nchunks proj | err …  one replicate of bootstraps_subsample_vcf:
+                                               want = the `subsample` dictionary in insertion order (p:k+p:k), popIds = `pop_ids` in the
+                                               order given, draws = the recorded draws still unused, choice = the recorded chunk choice
+   bsvproj want popIds                      -> ok proj           the generated `bsvProjections`
    sstate proj mask                         -> ok mask | err dim  mask of a spectrum with mask `mask` after `fs.S()` (generated `sBody` run by `sRun`)
    projw m n i j / chunkidx size p / shapes -> ok … -/
 namespace DadiVerif.Driver.DataDict
@@ -202,13 +207,35 @@ def handle (toks : List String) : Option String :=
   | ["chunkidx", size, p] => do
       let size ← size.toNat?; let p ← p.toNat?
       some ("ok " ++ toString (chunkIdx size p))
+  | ["bsv", filt, mc, pol, nboot, size, want, popIds, draws, choice, sites] => do
+      let filt ← parseBool filt; let mc ← parseBool mc; let pol ← parseBool pol
+      let nboot ← nboot.toNat?; let size ← size.toNat?; let want ← parseWant want; let popIds ← parseNatList popIds
+      let draws ← parseDraws draws; let choice ← parseNatList choice; let sites ← parseSites sites
+      if !bsvKeysOk want popIds then some "err keyerror"
+      else if bsvFragSize nboot size = 0 then some "err size"
+      else match bsvDict filt mc pol want popIds sites draws with
+        | none => some "err keyerror"
+        | some (dd, left) =>
+          let proj := bsvProjections want popIds
+          if !lengthsOk proj dd then some "err dim"
+          else
+            let chunks := bsvChunks nboot size dd
+            let cds := chunks.map countDict      -- `bsvReplicateAt … = bootAt … = bootAtCd … (chunks.map countDict) …`
+            if choice.any (· ≥ chunks.length) then some "err choice"
+            else some ("ok " ++ showData proj (bootAtCd (bsvBootPolarized filt mc pol) proj cds choice) ++ " "
+                  ++ showMask proj (bsvMaskAt filt mc pol want popIds) ++ " " ++ toString left.length ++ " "
+                  ++ toString chunks.length ++ " " ++ ",".intercalate (proj.map toString))
+  | ["bsvproj", want, popIds] => do
+      let want ← parseWant want; let popIds ← parseNatList popIds
+      if !bsvKeysOk want popIds then some "err keyerror"
+      else some ("ok " ++ ",".intercalate ((bsvProjections want popIds).map toString))
   | ["sstate", proj, mask] => do
       let proj ← parseNatList proj; let mask ← parseND mask
       if mask.shape ≠ shapeOf proj then some "err dim"
       else some ("ok " ++ showMask proj (sRun proj (fun _ => 0) (fun idx => mask.get idx != 0)).live)
   | ["shapes13"] =>
       some ("ok " ++ " ".intercalate ([accumulateShapeOk, foldIffUnpolarized, fromDataDictShapeOk, sShapeOk, keyParseShapeOk,
-        chunkLoopShapeOk, chunkRebuildShapeOk, bootstrapShapeOk, foldMaskShapeOk, statsSelfWrites.isEmpty].map fun (b : Bool) => if b then "1" else "0"))
+        chunkLoopShapeOk, chunkRebuildShapeOk, bootstrapShapeOk, foldMaskShapeOk, statsSelfWrites.isEmpty, bsvShapeOk].map fun (b : Bool) => if b then "1" else "0"))
   | _ => none
 
 end DadiVerif.Driver.DataDict
